@@ -562,10 +562,11 @@ func normalizeValue(
 		return normalizeMapValue(opts, ctx, v)
 	case reflect.Struct:
 		if v, ok := tryTConfig(v); ok {
-			// the embedded config gets its place in the new tree through a header of
-			// its own: the caller's config keeps its path and parent
+			// the embedded config is taken by value: what is built on top of it (a
+			// dotted key extending it, a later merge) must not write into the
+			// caller's config, which also keeps its path and parent
 			c := v.Addr().Interface().(*Config)
-			return cfgSub{&Config{ctx: ctx, metadata: c.metadata, fields: c.fields}}, nil
+			return cfgSub{c}.cpy(ctx), nil
 		}
 
 		return normalizeStructValue(opts, ctx, v)
